@@ -153,6 +153,7 @@ def _clone_cell(c):
     if isinstance(c, HDict):
         d = HDict(c.items, c.open, c.label)
         d.sym_items = list(c.sym_items)
+        d.value_kind = c.value_kind
         return d
     return HObj(c.cls, c.fields, c.label)
 
